@@ -34,10 +34,10 @@ ResetAfter(k) ==
   LET a == AfterNextReset(k)
   IN IF a - 1 >= 1 /\ a - 1 <= NLog /\ a - 1 > k /\ Log[a - 1].ev = "reset" THEN a - 1 ELSE a
 
-VARIABLES st, mode, l
-vars == <<st, mode, l>>
+VARIABLES st, mode, s0, l      \* s0: the subject the current trace started from
+vars == <<st, mode, s0, l>>
 
-Init == st = StInit(<<>>) /\ mode = "bytes" /\ l = 1
+Init == st = StInit(<<>>) /\ mode = "bytes" /\ s0 = <<>> /\ l = 1
 
 \* what of the recorded observation the property pins down
 Agrees(o, exp, act, before) ==
@@ -60,18 +60,18 @@ TStep ==
            THEN /\ st' = IF Open(st, act, mode) \/ (act.op = "split" /\ st.t = <<>>)
                          THEN Adopt(ev.obs, Apply(st, act, mode)) ELSE Apply(st, act, mode)
                 /\ l' = l + 1
-                /\ UNCHANGED mode
-           ELSE /\ Reject(l, [op |-> act.op, mode |-> mode, before |-> st.t,
+                /\ UNCHANGED <<mode, s0>>
+           ELSE /\ Reject(l, [op |-> act.op, mode |-> mode, s0 |-> s0, before |-> st.t,
                               expected |-> IF Enabled(st, act) THEN Obs(Apply(st, act, mode))
                                            ELSE [ret |-> <<>>, rstart |-> 0, rlength |-> 0, t |-> <<>>, arr |-> <<>>],
                               indomain |-> Enabled(st, act)])
                 /\ l' = ResetAfter(l)
-                /\ UNCHANGED <<st, mode>>
+                /\ UNCHANGED <<st, mode, s0>>
 
 TReset == /\ l <= NLog /\ Log[l].ev = "reset"
-          /\ st' = StInit(Log[l].s) /\ mode' = Log[l].mode /\ l' = l + 1
+          /\ st' = StInit(Log[l].s) /\ mode' = Log[l].mode /\ s0' = Log[l].s /\ l' = l + 1
 
-TDone == l = NLog + 1 /\ PrintT("TRACE-END") /\ l' = l + 1 /\ UNCHANGED <<st, mode>>
+TDone == l = NLog + 1 /\ PrintT("TRACE-END") /\ l' = l + 1 /\ UNCHANGED <<st, mode, s0>>
 
 Next == TStep \/ TReset \/ TDone
 Spec == Init /\ [][Next]_vars
